@@ -333,6 +333,21 @@ def check_property(mod, tier, seed, replay=None):
         for pr in extra.pop('problems', []):
             problems.append(pr)
 
+    # anchored-line coverage of this run (measurement of the generators; harness/anchorcov.py)
+    cov_rec = None
+    cov_prop = None
+    if os.environ.get('VERIF_COV', '1') != '0':
+        try:
+            import anchorcov
+            cov_prop = anchorcov.load_property(VERIF, pid)
+            if cov_prop:
+                cfuncs, _ = anchorcov.anchored_functions(REPO, cov_prop)
+                cov_rec = anchorcov.Recorder(cfuncs.keys())
+                if not cov_rec.start():
+                    cov_rec = None
+        except Exception:
+            cov_rec = None
+
     # 3. cases
     cases = []
     if replay:
@@ -400,6 +415,13 @@ def check_property(mod, tier, seed, replay=None):
                         break
                 if [f for f in failures if f[2] is None]:
                     break
+    anchored = None
+    if cov_rec is not None:
+        try:
+            cov_rec.stop()
+            anchored = anchorcov.report(REPO, cov_prop, cov_rec.hit)
+        except Exception as e:
+            anchored = dict(error=str(e))
     known = [k for k in load_known() if pid in k['property'].split(',')]
     open_ids = {k['id'] for k in known if k['status'] == 'open'}
     new_fail = [f for f in failures if f[2] not in open_ids]
@@ -466,6 +488,7 @@ def check_property(mod, tier, seed, replay=None):
             oracle_runs=oracle_runs, oracle_failures=len(failures), known_findings=kf_report,
             samples=samples,
             generator=getattr(mod, 'STATS', {}),
+            anchored_lines=anchored,
             lean_build=build, leanchecker=recheck, problems=problems,
         ),
         assumptions=list(getattr(mod, 'ASSUMPTIONS', [])) + [
